@@ -351,6 +351,11 @@ def linkHref (base : PathS) (l : Link) : Str :=
     | some t => t ++ l.rest
     | none => ('|' :: l.alias) ++ ('|' :: l.rest)
 
+/-- the alias dictionary that `ford.main` hands to `MetaMarkdown` for the predefined aliases:
+    `str(url_path / <segments>)` for every entry of the table -/
+def mainAliases (base : PathS) : List (Str × Str) :=
+  aliasTable.map (fun p => (p.1, showAbs (base ++ p.2)))
+
 /-- directory of the output file of a page = `md.current_path` during its conversion -/
 def pageDir (base : PathS) (n : Node) : PathS := base ++ convPathSeg ++ n.loc
 def outDir (base : PathS) (n : Node) : PathS := base ++ pageDirSeg ++ n.loc
@@ -470,6 +475,19 @@ def mediaOutputs : Option (List Entry) → List (PathS × Bool)
 
 /-- `{{ pages.url | relurl(page_url) }}` in the navigation bar of page `q` -/
 def topNavHref (base : PathS) (top q : Node) : Str := relurl base q (nodeUrl base top)
+
+/-! ## the containment guard of `get_page_tree`
+
+`relname = os.path.relpath(filename, topdir)` with `filename = topdir / name`, then
+`relname in (os.curdir, os.pardir) or relname.startswith(os.pardir + os.sep)`: purely lexical (pathlib's `/`
+and `relpath` never look at the file system), so whether `name` is a link, and where it leads, plays no role. -/
+
+/-- `relname in (".", "..") or relname.startswith("../")` on the segments of `relname` (`.` = no segment) -/
+def escapes (rel : PathS) : Bool := rel.isEmpty || rel.head? == some dotdot
+
+/-- the guard for the entry `name` of the directory `topdir` (absolute, normalised) -/
+def guardSkips (topdir : PathS) (name : Str) : Bool :=
+  escapes (relpath (norm (topdir ++ splitSlash name)) topdir)
 
 /-- the layer of `aliasLayers` that stands for the dict literal of the predefined aliases -/
 def predefinedLayer : Str := pt! "<predefined>"
